@@ -3,10 +3,26 @@ import sys
 import cvc5
 
 
+def _die_with_parent():
+    """The server must never outlive the worker that started it (workers are terminated, not shut down, when a pool is torn
+    down): ask the kernel to kill this process when the parent goes away, and leave at once if it is gone already."""
+    import ctypes, os, signal
+    try:
+        ctypes.CDLL("libc.so.6", use_errno=True).prctl(1, signal.SIGKILL)      # PR_SET_PDEATHSIG
+    except Exception:      # noqa
+        pass
+    if os.getppid() == 1:
+        os._exit(0)
+
+
+_die_with_parent()
+
+
 def run(path):
     text = open(path).read()
     slv = cvc5.Solver()
     slv.setOption("produce-models", "true")
+    slv.setOption("tlimit-per", "600000")          # ms: no query may run longer than 10 minutes, whatever the caller does
     if "(set-logic" not in text:
         slv.setLogic("ALL")
     p = cvc5.InputParser(slv)
